@@ -81,6 +81,7 @@ class Ctx:
         if replay is None:
             shutil.rmtree(self.replay_dir, ignore_errors=True)
         self.known = load_known().get(pid, [])
+        self.dev_skip = False
 
     # ---------------------------------------------------------------- properties of the tier
     def q(self, quick, thorough):
@@ -99,6 +100,11 @@ class Ctx:
     def tlc_check(self, module, cfg, workers=None, timeout=1800, coverage=False, require_actions=None,
                   heap=None, extra_args=(), record=True, deadlock=False):
         """Exhaustive TLC run. A model-level violation is Inconclusive (it is about the spec)."""
+        if os.environ.get("VERIF_DEV_SKIP_TLC") == "1":
+            # development aid only: the run can then never be a pass (finish() returns 2) and writes no evidence
+            self.dev_skip = True
+            self.log("DEV: skipping exhaustive TLC run %s/%s" % (module, cfg))
+            return {"module": module, "cfg": cfg, "generated": 0, "distinct": 0, "depth": 0, "wall_s": 0, "rc": 0, "out": "", "actions": {}}
         d = self._spec_dir()
         md = tempfile.mkdtemp(prefix="md-", dir=self.work)
         cmd = ["java", "-XX:+UseParallelGC", "-Xss256m"]
@@ -362,6 +368,13 @@ class Ctx:
               "coverage": self.cov, "assumptions": self.assumptions, "wall_s": wall,
               "violations": len(self.violations), "notes": self.notes,
               "known_findings_hit": [k["fingerprint"] for k in self.known_hits]}
+        if self.dev_skip:
+            for fp, what, p in self.violations[:20]:
+                print("VIOLATION property=%s replay=%s" % (self.id, p))
+                print("  " + what[:2000])
+            print("DEV RUN (exhaustive TLC skipped): not a verdict; %d violations" % len(self.violations))
+            shutil.rmtree(self.work, ignore_errors=True)
+            return 1 if self.violations else 2
         if self.replay is None:
             # evidence/ is only ever written from runs against /repo itself; runs against a scratch worktree
             # (VERIF_REPO=..., used to try the checks on mutants) leave their evidence under .work/
